@@ -9,7 +9,11 @@
 EXTENDS BLS
 
 NREG == 8
-InitRegs == [p |-> [i \in 0..(NREG-1) |-> <<>>], a |-> [i \in 0..(NREG-1) |-> <<>>]]
+(* p, a: abstract points held by the projective / affine registers;                *)
+(* r: the raw Jacobian triple last logged for each projective register (a shadow   *)
+(* of the implementation's representation, needed only to judge is_normalized).    *)
+InitRegs == [p |-> [i \in 0..(NREG-1) |-> <<>>], a |-> [i \in 0..(NREG-1) |-> <<>>],
+             r |-> [i \in 0..(NREG-1) |-> <<>>]]
 
 (* group dispatch *)
 GAdd(g, P, S) == IF g = "G1" THEN E1!PAdd(P, S) ELSE E2!PAdd(P, S)
@@ -34,7 +38,7 @@ IsNormalizedJ(g, J) == J[3] = GFZero(g) \/ J[3] = GFOne(g)
 (***************************************************************************)
 (* CmStep(g, regs, e) = <<accepted, regs'>> : one event of the machine.    *)
 (***************************************************************************)
-LOCAL SetP(regs, d, P) == [regs EXCEPT !.p[d] = P]
+LOCAL SetPJ(regs, d, P, J) == [regs EXCEPT !.p[d] = P, !.r[d] = J]
 LOCAL SetA(regs, d, P) == [regs EXCEPT !.a[d] = P]
 
 CmStep(g, regs, e) ==
@@ -42,36 +46,38 @@ CmStep(g, regs, e) ==
   CASE f = "reset" -> <<TRUE, InitRegs>>
     [] f = "load" ->
          \* the script must load a representative of a curve point
-         LET P == GOfJac(g, e.v) IN <<e.out = e.v /\ GOnCurve(g, P), SetP(regs, e.d, P)>>
+         LET P == GOfJac(g, e.v) IN <<e.out = e.v /\ GOnCurve(g, P), SetPJ(regs, e.d, P, e.out)>>
     [] f = "load_aff" ->
          LET P == OfAffRec(e.v) IN <<e.out = e.v /\ GOnCurve(g, P), SetA(regs, e.d, P)>>
-    [] f = "zero" -> <<GRep(g, e.out, <<>>), SetP(regs, e.d, <<>>)>>
-    [] f = "one"  -> <<GRep(g, e.out, GGen(g)), SetP(regs, e.d, GGen(g))>>
+    [] f = "zero" -> <<GRep(g, e.out, <<>>), SetPJ(regs, e.d, <<>>, e.out)>>
+    [] f = "one"  -> <<GRep(g, e.out, GGen(g)), SetPJ(regs, e.d, GGen(g), e.out)>>
     [] f = "zero_aff" -> <<AffRep(e.out, <<>>) /\ AffCanon(g, e.out), SetA(regs, e.d, <<>>)>>
     [] f = "one_aff"  -> <<AffRep(e.out, GGen(g)), SetA(regs, e.d, GGen(g))>>
-    [] f = "rescale" -> <<GRep(g, e.out, regs.p[e.d]), regs>>
-    [] f = "copy" -> <<GRep(g, e.out, regs.p[e.s]), SetP(regs, e.d, regs.p[e.s])>>
-    [] f = "add" -> LET P == GAdd(g, regs.p[e.d], regs.p[e.s]) IN <<GRep(g, e.out, P), SetP(regs, e.d, P)>>
-    [] f = "sub" -> LET P == GSub(g, regs.p[e.d], regs.p[e.s]) IN <<GRep(g, e.out, P), SetP(regs, e.d, P)>>
-    [] f = "add_mixed" -> LET P == GAdd(g, regs.p[e.d], regs.a[e.s]) IN <<GRep(g, e.out, P), SetP(regs, e.d, P)>>
-    [] f = "sub_mixed" -> LET P == GSub(g, regs.p[e.d], regs.a[e.s]) IN <<GRep(g, e.out, P), SetP(regs, e.d, P)>>
-    [] f = "double" -> LET P == GDbl(g, regs.p[e.d]) IN <<GRep(g, e.out, P), SetP(regs, e.d, P)>>
-    [] f = "negate" -> LET P == GNeg(g, regs.p[e.d]) IN <<GRep(g, e.out, P), SetP(regs, e.d, P)>>
+    [] f = "rescale" -> <<GRep(g, e.out, regs.p[e.d]), [regs EXCEPT !.r[e.d] = e.out]>>
+    [] f = "copy" -> <<e.out = regs.r[e.s], SetPJ(regs, e.d, regs.p[e.s], e.out)>>
+    [] f = "add" -> LET P == GAdd(g, regs.p[e.d], regs.p[e.s]) IN <<GRep(g, e.out, P), SetPJ(regs, e.d, P, e.out)>>
+    [] f = "sub" -> LET P == GSub(g, regs.p[e.d], regs.p[e.s]) IN <<GRep(g, e.out, P), SetPJ(regs, e.d, P, e.out)>>
+    [] f = "add_mixed" -> LET P == GAdd(g, regs.p[e.d], regs.a[e.s]) IN <<GRep(g, e.out, P), SetPJ(regs, e.d, P, e.out)>>
+    [] f = "sub_mixed" -> LET P == GSub(g, regs.p[e.d], regs.a[e.s]) IN <<GRep(g, e.out, P), SetPJ(regs, e.d, P, e.out)>>
+    [] f = "double" -> LET P == GDbl(g, regs.p[e.d]) IN <<GRep(g, e.out, P), SetPJ(regs, e.d, P, e.out)>>
+    [] f = "negate" -> LET P == GNeg(g, regs.p[e.d]) IN <<GRep(g, e.out, P), SetPJ(regs, e.d, P, e.out)>>
     [] f = "negate_aff" -> LET P == GNeg(g, regs.a[e.d]) IN <<AffRep(e.out, P), SetA(regs, e.d, P)>>
     [] f = "into_affine" -> <<AffRep(e.out, regs.p[e.s]) /\ AffCanon(g, e.out), SetA(regs, e.d, regs.p[e.s])>>
-    [] f = "into_projective" -> <<GRep(g, e.out, regs.a[e.s]), SetP(regs, e.d, regs.a[e.s])>>
+    [] f = "into_projective" -> <<GRep(g, e.out, regs.a[e.s]), SetPJ(regs, e.d, regs.a[e.s], e.out)>>
     [] f = "eq" -> <<e.out = (regs.p[e.d] = regs.p[e.s]), regs>>
     [] f = "eq_aff" -> <<e.out = (regs.a[e.d] = regs.a[e.s]), regs>>
     [] f = "is_zero" -> <<e.out = (regs.p[e.d] = <<>>), regs>>
     [] f = "is_zero_aff" -> <<e.out = (regs.a[e.d] = <<>>), regs>>
-    [] f = "is_normalized" -> <<TRUE, regs>>   \* representation query: judged in batch_normalization
+    [] f = "is_normalized" -> <<e.out = IsNormalizedJ(g, regs.r[e.d]), regs>>
     [] f = "batch_normalization" ->
          \* representations change (every entry normalized afterwards), points do not
          <<\A i \in 1..Len(e.regs) :
               /\ GRep(g, e.out[i][1], regs.p[e.regs[i]])
               /\ IsNormalizedJ(g, e.out[i][1])
               /\ e.out[i][2] = TRUE,
-           regs>>
-    [] f = "mul" -> LET P == GMul(g, regs.p[e.d], e.k) IN <<GRep(g, e.out, P), SetP(regs, e.d, P)>>
-    [] f = "mul_aff" -> LET P == GMul(g, regs.a[e.s], e.k) IN <<GRep(g, e.out, P), SetP(regs, e.d, P)>>
+           [regs EXCEPT !.r = [k \in DOMAIN regs.r |->
+               IF \E i \in 1..Len(e.regs) : e.regs[i] = k
+               THEN e.out[CHOOSE i \in 1..Len(e.regs) : e.regs[i] = k][1] ELSE regs.r[k]]]>>
+    [] f = "mul" -> LET P == GMul(g, regs.p[e.d], e.k) IN <<GRep(g, e.out, P), SetPJ(regs, e.d, P, e.out)>>
+    [] f = "mul_aff" -> LET P == GMul(g, regs.a[e.s], e.k) IN <<GRep(g, e.out, P), SetPJ(regs, e.d, P, e.out)>>
 =============================================================================
